@@ -108,3 +108,22 @@ pub fn memfs_dump(vfs: &Memfs) -> String {
     }
     out.join("\n")
 }
+
+/// Build a detached Memfs entry of the given kind and raw mode (for driving `chmod_mode`)
+pub fn make_entry(path: &str, dir: bool, file: bool, link: bool, mode: u32) -> VfsEntry {
+    crate::sys::MemfsEntry {
+        path: std::path::PathBuf::from(path),
+        alt: std::path::PathBuf::new(),
+        rel: std::path::PathBuf::new(),
+        dir,
+        file,
+        link,
+        mode,
+        uid: 1000,
+        gid: 1000,
+        follow: false,
+        cached: false,
+        files: None,
+    }
+    .upcast()
+}
